@@ -441,6 +441,18 @@ def check_lp1c(func_node, loop):
         if isinstance(n, ast.comprehension):
             comp |= {x.id for x in ast.walk(n.target) if isinstance(x, ast.Name)}
     inner -= comp
+    # `(v := f(k))` in the filter of a comprehension and v used in its element: bound and used within one pass of that
+    # comprehension (the element is evaluated only after the filter passed), never carried between loop iterations
+    for n in ast.walk(loop):
+        if isinstance(n, (ast.ListComp, ast.SetComp, ast.DictComp, ast.GeneratorExp)):
+            wal = {x.target.id for g in n.generators for i_ in g.ifs for x in ast.walk(i_)
+                   if isinstance(x, ast.NamedExpr) and isinstance(x.target, ast.Name)}
+            for v in wal:
+                stores = [x for x in ast.walk(loop) if isinstance(x, ast.Name) and x.id == v and isinstance(x.ctx, ast.Store)]
+                uses = [x for x in ast.walk(loop) if isinstance(x, ast.Name) and x.id == v and isinstance(x.ctx, ast.Load)]
+                inside = {id(x) for x in ast.walk(n)}
+                if all(id(x) in inside for x in stores + uses):
+                    inner.discard(v)
     before = set()
     a = func_node.args
     for arg in a.posonlyargs + a.args + a.kwonlyargs:
